@@ -1,6 +1,6 @@
 //! C19: xargs exit status. Input {outs:[..]} (per-invocation scripted outcomes: 0..255 exit
 //! status, 1000+s killed by signal s) with -n1 and one argument per outcome, or
-//! {kind:"notfound"|"notexec"|"badopt"|"quote"|"toolong"}.
+//! {kind:"notfound"|"notexec"|"notexec_dir"|"notexec_notdir"|"notexec_loop"|"badopt"|"quote"|"toolong"}.
 //! Observation: {started, exit}
 use super::Prop;
 use crate::util::*;
@@ -37,15 +37,29 @@ impl Prop for P19 {
                 }
                 json!({"started": r.execs.len(), "exit": r.exit})
             }
-            "notfound" | "notexec" => {
+            "notfound" | "notexec" | "notexec_dir" | "notexec_notdir" | "notexec_loop" => {
                 let stdin = b"a\nb\nc\n".to_vec();
                 let mut o = XOpts::new(&stdin);
                 o.opts = vec!["-n".into(), "1".into()];
-                let p = self.sb.path().join(if kind == "notfound" { "no-such-command" } else { "not-executable" });
-                if kind == "notexec" {
-                    std::fs::write(&p, b"#!/bin/sh\nexit 0\n").unwrap();
-                    use std::os::unix::fs::PermissionsExt;
-                    std::fs::set_permissions(&p, std::fs::Permissions::from_mode(0o644)).unwrap();
+                let mut p = self.sb.path().join(if kind == "notfound" { "no-such-command" } else { "not-executable" });
+                let _ = std::fs::remove_file(&p);
+                let _ = std::fs::remove_dir(&p);
+                match kind.as_str() {
+                    "notexec" => {
+                        std::fs::write(&p, b"#!/bin/sh\nexit 0\n").unwrap();
+                        use std::os::unix::fs::PermissionsExt;
+                        std::fs::set_permissions(&p, std::fs::Permissions::from_mode(0o644)).unwrap();
+                    }
+                    // the command exists but is a directory
+                    "notexec_dir" => std::fs::create_dir(&p).unwrap(),
+                    // the path of the command leads through a regular file
+                    "notexec_notdir" => {
+                        std::fs::write(&p, b"x").unwrap();
+                        p = p.join("cmd");
+                    }
+                    // the command is a symbolic link to itself
+                    "notexec_loop" => std::os::unix::fs::symlink("not-executable", &p).unwrap(),
+                    _ => {}
                 }
                 o.cmd = Some(p);
                 let r = run_xargs(&self.sb, &o);
@@ -73,8 +87,8 @@ impl Prop for P19 {
     }
 
     fn gen(&mut self, rng: &mut Rng, idx: usize, tier: &str) -> Value {
-        if idx % 25 == 24 {
-            let k = *rng.pick(&["notfound", "notexec", "badopt", "badopt2", "badopt3", "quote", "quote2", "toolong"]);
+        if idx % 8 == 7 {
+            let k = *rng.pick(&["notfound", "notexec", "notexec_dir", "notexec_notdir", "notexec_loop", "badopt", "badopt2", "badopt3", "quote", "quote2", "toolong"]);
             return json!({"kind": k});
         }
         let len = if idx % 10 == 0 { rng.below(if tier == "thorough" { 200 } else { 60 }) } else { rng.below(9) };
